@@ -6,7 +6,7 @@
    variables: snap = abstract state at the starting boundary, k = edges).  At the
    next boundary (or halt) the WHOLE abstract state must equal IsaStep(snap)
    ("and nothing else changes") and k must equal the cost the ISA prescribes.    *)
-EXTENDS Machine, TLC, FiniteSets
+EXTENDS Gen, TLC, FiniteSets
 I == INSTANCE Isa
 
 CONSTANT Suite          \* which family of initial states ("shapes1", "shapes2", ...)
@@ -22,24 +22,9 @@ Abs(s) == [s EXCEPT !.maddr = 0, !.ir = 0, !.prw = -1, !.pfw = FALSE, !.wait = F
 AbsC(s) == Abs(s) @@ [cyc |-> 0]
 Boundary(s) == IsInstructionDone(s)
 
-\* ---- generator of boundary states -----------------------------------------------------
-BaseRam == [i \in 0..239 |-> (i * 37 + 11) % 256]
-\* a boundary state: fetch word, PC increment pending, own opcode already on the bus
-Mk(pc, bytes, r0, r1, r2, fr, sp, pend, ss, ps, cells) ==
-  LET ram0 == [i \in 0..239 |-> IF i >= pc /\ i < pc + Len(bytes) THEN bytes[i - pc + 1] ELSE BaseRam[i]]
-      ram == [i \in 0..239 |-> IF i \in DOMAIN cells THEN cells[i] ELSE ram0[i]]
-      m0 == [MachineInit EXCEPT !.ram = ram, !.inr = [j \in 0..3 |-> 10 + 3 * j], !.micr = 1,
-                                !.misr = IF pend THEN 17 ELSE 0, !.ss = ss, !.ps = ps]
-  IN [m0 EXCEPT !.maddr = 6, !.ir = 2,
-                !.regs = [j \in 0..7 |-> CASE j = 0 -> r0 [] j = 1 -> r1 [] j = 2 -> r2 [] j = 3 -> pc
-                                           [] j = 4 -> fr [] j = 5 -> sp [] j = 6 -> 90 [] j = 7 -> 165],
-                !.prw = 3, !.aout = (pc + 1) % 256, !.pei = pend, !.wait = (pc <= 239),
-                !.lbr = BusRead(m0, pc)]
-
 RegSets == { <<128, 77, 255>>, <<33, 156, 0>>, <<3, 3, 3>>, <<200, 17, 64>> }
 Defined2 == (16..71) \cup (80..111)
 Probe2 == Defined2 \cup {0, 1, 2, 15, 72, 112, 200, 255}
-NoCells == [i \in {} |-> 0]
 
 \* Seeds are small tuples <<pc, bytes, r0, r1, r2, fr, sp, pend, ss, ps>>; the machine record is built
 \* in a first Next step so that construction is spread over TLC's workers.
